@@ -275,13 +275,16 @@ func VerifC10FailingRuleChildren() {
 	prio := []int{zz.Choice("prio0", 3), zz.Choice("prio1", 3), zz.Choice("prio2", 3)}
 	failing := zz.Choice("failing", 4) // 3 = none
 	names := []string{"r0", "r1", "r2"}
+	addsChildren := zz.Bool("rulesAddChildEvents") // without children the failing event can be the last monitor of the cascade to finish
 	for i := 0; i < 3; i++ {
 		i := i
 		err := p.AddRule(&Rule{Name: names[i], KindMatch: []string{"a"}, ScopeMatch: []string{}, Priority: prio[i],
 			Action: func(p Processor, m Monitor, e *Event, tid uint64) error {
 				trace = append(trace, names[i])
 				// every rule adds a child event; the child of rule i has priority 2-i (later rules' children first)
-				p.AddEvent(NewEvent("child"+names[i], []string{"c"}, map[interface{}]interface{}{"from": names[i]}), m.NewChildMonitor(2-i))
+				if addsChildren {
+					p.AddEvent(NewEvent("child"+names[i], []string{"c"}, map[interface{}]interface{}{"from": names[i]}), m.NewChildMonitor(2-i))
+				}
 				if i == failing {
 					return errors.New("failed")
 				}
@@ -295,6 +298,9 @@ func VerifC10FailingRuleChildren() {
 			children = append(children, e.State()["from"].(string))
 			return nil
 		}})
+	if pre := zz.Param("P", 0); pre > 0 {
+		zz.Schedule(pre) // the waiter reads the report as soon as the wait returns: all schedules with <= P pre-emptions
+	}
 	p.Start()
 	m, err := p.AddEventAndWait(NewEvent("e", []string{"a"}, nil), nil)
 	zz.Reach("cascade-done")
@@ -315,6 +321,10 @@ func VerifC10FailingRuleChildren() {
 		zz.Assert(len(trace) == 3, "C10.all-rules-run")
 	}
 	// every rule that ran added a child event, and every such child is processed - also the failing rule's
+	if !addsChildren {
+		zz.Assert(len(children) == 0, "C10.children-of-all-run-rules-processed")
+		trace = nil
+	}
 	zz.Assert(len(children) == len(trace), "C10.children-of-all-run-rules-processed")
 	for _, r := range trace {
 		found := false
